@@ -177,6 +177,18 @@ class TypeB:
         self.d["fields"].append(f)
         return self
 
+    def transform_expr(self, name, value, dest, lo_hi, requires=None, **hints):
+        """Writable virtual whose value nests additions/subtractions of constants around ONE field `dest`
+        ((y - 50) + 30, 100 - (y - 5), ...).  lo_hi: the values of the virtual at dest's smallest / largest value
+        (only used to pick write candidates at the edges)."""
+        path = dest.split(".") if isinstance(dest, str) else list(dest)
+        f = {"name": name, "kind": "virt", "value": E(value), "alias": [], "anon": False, "vt": "int",
+             "xform": [{"op": "expr", "c": 0, "dest": path, "edges": sorted(lo_hi)}],
+             "requires": [E(requires)] if requires is not None else []}
+        f.update(hints)
+        self.d["fields"].append(f)
+        return self
+
     def alias(self, name, *path, **hints):
         f = {"name": name, "kind": "virt", "value": R(*path), "alias": list(path), "anon": False, "vt": "int", "requires": [], "xform": []}
         f.update(hints)
